@@ -74,6 +74,10 @@ def obligations_for(prop: str) -> list[str]:
     return [l.strip() for l in f.read_text().split("\n") if l.strip() and not l.startswith("#")]
 
 
+# properties quantified over training histories of the clustering estimators (fit_gif is one more training call)
+FITGIF_PROPS = {"C01", "C02", "C04", "C05", "C06", "C07", "C13", "C14"}
+
+
 def audit(prop: str, log: list[str]) -> dict:
     """#print axioms for every theorem the property file promises."""
     names = obligations_for(prop)
@@ -91,6 +95,21 @@ def audit(prop: str, log: list[str]) -> dict:
         log.append("class surface (which class overrides which inherited method) compared with lean/obligations/class_surface.json")
     except Exception as e:      # noqa
         res["failed"].append(f"class-surface: could not be computed ({e!r})")
+    # fit_gif repeats fit's training loop between drawing statements (tools/fitgif_skeleton.py): the properties that
+    # speak about training histories rely on the two loops being the same
+    if prop in FITGIF_PROPS:
+        try:
+            import importlib.util
+            spec_ = importlib.util.spec_from_file_location("fitgif_skeleton", str(VERIF_DIR / "tools" / "fitgif_skeleton.py"))
+            fg = importlib.util.module_from_spec(spec_)
+            spec_.loader.exec_module(fg)
+            d = fg.diff(REPO)
+            if d:
+                res["failed"].append("fit_gif-skeleton: BaseART.fit_gif without its drawing statements is no longer fit's training code: "
+                                     + " | ".join(d))
+            log.append("fit_gif skeleton (fit_gif minus drawing statements = fit, same AST) checked")
+        except Exception as e:      # noqa
+            res["failed"].append(f"fit_gif-skeleton: could not be computed ({e!r})")
     if not names:
         res["failed"].append("no obligations registered")
         return res
